@@ -1,18 +1,18 @@
 SPECIFICATION Spec
 CONSTANTS
-  Threads = {1, 2, 3}
-  Prog <- ProgList2
-  HashOf <- HashSame
-  InitKeys <- Init0
-  N0 = 2
+  Threads = {1, 2}
+  Prog <- ProgIt2
+  HashOf <- HashId
+  InitKeys <- Init1
+  N0 = 1
   DCAP = 2
-  MaxNodes = 6
-  MaxTabs = 1
+  MaxNodes = 12
+  MaxTabs = 3
   STRIDE = 1
   MAXRES = 100
   STAMPCHECK = TRUE
   ACSTAMPCHECK = TRUE
-  TRAVOFF = 0
+  TRAVOFF = 1
 INVARIANTS Linearizable NoDeadlock ResizeSafe QuiescentOK ReadersNeverBlock IterWeak GhostOK
 PROPERTY NeverShrinks
 VIEW view
